@@ -176,6 +176,11 @@ def argv_single(d, inp):
             "--info-file", os.path.join(d, "info.tsv"), os.path.join(d, inp)]
 
 
+def argv_stdout(d, inp):
+    """reads go to standard output, the report is switched off: whatever appears on stderr is the error message"""
+    return ["--quiet", "-a", ADAPTER, "-m", "25", os.path.join(d, inp)]
+
+
 def argv_paired(d, interleaved, ext="fastq"):
     a = ["-a", ADAPTER, "-A", ADAPTER, "-m", "25", "-o", os.path.join(d, "out.1." + ext), "-p", os.path.join(d, "out.2." + ext)]
     if interleaved:
@@ -193,6 +198,8 @@ def run_one(job):
             f.write(data)
     res = R.run_cli(job["argv"](d), d, job["cores"], buffer_size=job["buf"], sched=job.get("sched"), timeout=TIMEOUT)
     res["out"] = R.collect_outputs(d)
+    if job.get("stdout"):
+        res["out"] = {"out.fastq": res.get("stdout", "").encode("ascii", errors="replace")}
     shutil.rmtree(d, ignore_errors=True)
     return res
 
@@ -290,6 +297,16 @@ def check(ctx):
                 continue
             for cores in [1, rng.choice(multi)] if ctx.quick else [1] + multi[:2]:
                 add("single", ("gz:" if gz else "") + label, {name: bad}, refs[refkey]["argv"], cores, rng.choice([600, 600, 1000, None]), refkey, wf)
+    # ---- reads written to standard output (no -o), --quiet: the failure must still be announced on stderr
+    recs_so = make_records(rng, nrec, "s")
+    plain_so = fastq(recs_so)
+    refs["single-stdout"] = {"files": {"in.fastq": plain_so}, "argv": lambda d: argv_stdout(d, "in.fastq"), "stdout": True}
+    so_faults = [f for f in faults_single(rng, plain_so, recs_so, True, False) if well_formed_file("in.fastq", f[1]) is None]
+    rng.shuffle(so_faults)
+    for label, bad in so_faults[: (4 if ctx.quick else 20)]:
+        for cores in [1, rng.choice(multi)]:
+            add("single", "stdout:" + label, {"in.fastq": bad}, refs["single-stdout"]["argv"], cores, rng.choice([600, None]), "single-stdout", None)
+            jobs[-1]["stdout"] = True
     # ---- a larger gzip input: the decompressor fails only after format detection and the first chunks went through, so the error
     # arises in the reader process and has to travel through the workers to the main process (EOFError for a truncated stream)
     big = make_records(rng, 400 if ctx.quick else 2500, "b")
@@ -375,7 +392,7 @@ def check(ctx):
     # ---- reference runs on the intact inputs (one core)
     try:
         for key, ref in refs.items():
-            res = run_one({"dir": os.path.join(root, "ref"), "files": ref["files"], "argv": ref["argv"], "cores": 1, "buf": None})
+            res = run_one({"dir": os.path.join(root, "ref"), "files": ref["files"], "argv": ref["argv"], "cores": 1, "buf": None, "stdout": ref.get("stdout", False)})
             if res["exit"] != 0:
                 ctx.broken.append("reference run on the intact %s input failed: %s" % (key, res["stderr"][-200:]))
             ref["out"] = res["out"]
@@ -394,7 +411,7 @@ def check(ctx):
         probs = judge(j["label"], j, res, refs[j["refkey"]]["out"], wf, j["kind"])
         desc = {"kind": j["kind"], "fault": j["label"], "cores": j["cores"], "buffer_size": j["buf"], "sched": j["sched"], "refkey": j["refkey"],
                 "files": {k: v.hex() for k, v in j["files"].items()}, "intact": {k: v.hex() for k, v in refs[j["refkey"]]["files"].items()},
-                "well_formed_reads": wf, "exit": res["exit"], "stderr": res["stderr"][-400:]}
+                "well_formed_reads": wf, "exit": res["exit"], "stderr": res["stderr"][-400:], "stdout": bool(j.get("stdout"))}
         if probs:
             sig = probs[0].split(" (")[0]
             sig = "faulty input: " + ("".join(c for c in sig if not c.isdigit()))
@@ -427,13 +444,13 @@ def replay(doc):
     intact = {k: bytes.fromhex(v) for k, v in r["intact"].items()}
     if r["kind"] == "single":
         name = list(files)[0]
-        argv = lambda d: argv_single(d, name)
+        argv = (lambda d: argv_stdout(d, name)) if r.get("stdout") else (lambda d: argv_single(d, name))
     else:
         argv = lambda d: argv_paired(d, r["refkey"].startswith("interleaved"), "fasta" if r["refkey"].endswith("fasta") else "fastq")
-    ref = run_one({"dir": root, "files": intact, "argv": argv, "cores": 1, "buf": None})
+    ref = run_one({"dir": root, "files": intact, "argv": argv, "cores": 1, "buf": None, "stdout": bool(r.get("stdout"))})
     bad = []
     for attempt in range(4):
-        res = run_one({"dir": root, "files": files, "argv": argv, "cores": r["cores"], "buf": r["buffer_size"], "sched": r.get("sched")})
+        res = run_one({"dir": root, "files": files, "argv": argv, "cores": r["cores"], "buf": r["buffer_size"], "sched": r.get("sched"), "stdout": bool(r.get("stdout"))})
         bad = judge(r["fault"], r, res, ref["out"], r.get("well_formed_reads"), r["kind"])
         print("C12 replay: fault=%s cores=%d exit=%r timed_out=%s stderr=%s" % (r["fault"], r["cores"], res["exit"], res["timed_out"], res["stderr"].strip()[-200:]))
         if bad:
